@@ -8,6 +8,15 @@
 //   mem   what the member handle `next` of every live Derived object holds (-1: none)
 //   same  operator== / != of every pair of same-typed handles
 //   ret   the value returned by the operation
+// Three families of pointee types ("layout" in the input line) with the same meaning but
+// different object layouts:
+//   single   Leaf : Node                 derived-to-base conversion keeps the address
+//   multi    Leaf : Tag, Node            the Node (ref-counted) subobject sits at a non-zero offset
+//   virtual  Leaf : virtual Node         the Node subobject is reached through the vbase offset
+// so that converting a Derived handle / pointer to a Base one ADJUSTS the pointer; handles of
+// three static types: IntrusivePtr<const Node> ('C'), IntrusivePtr<Node> ('B'), Ref<Leaf> ('D').
+// The driver refuses to run (exit 3, an infrastructure error) if the adjusting families do
+// not really adjust.
 // Handles live in raw storage: construction and destruction are explicit actions.
 // Derived pointees embed a handle (Ref<Node> next): destroying such an object releases
 // what `next` holds (cascade), and a pool handle can be assigned from the member of the
@@ -43,12 +52,13 @@ static bool g_quarantine = false;
 static std::vector<void *> g_quarantined;
 
 // pointee types: Node is the "Base" type, Leaf the "Derived" type of the specification
-struct Node : public rkcommon::memory::RefCount  // RefCount.h alias of RefCountedObject
+template <int LAYOUT>
+struct NodeT : public rkcommon::memory::RefCount  // RefCount.h alias of RefCountedObject
 {
   int o, inc;
   long long payload;
-  Node(int o_, int inc_) : o(o_), inc(inc_), payload(0x5a5a5a5a) {}
-  virtual ~Node() { g_dtors.push_back(DtorEvent{o, inc, 'B'}); payload = 0; }
+  NodeT(int o_, int inc_) : o(o_), inc(inc_), payload(0x5a5a5a5a) {}
+  virtual ~NodeT() { g_dtors.push_back(DtorEvent{o, inc, 'B'}); payload = 0; }
   // class-level deallocation (found through the virtual destructor for both pointee types)
   static void operator delete(void *p)
   {
@@ -56,45 +66,69 @@ struct Node : public rkcommon::memory::RefCount  // RefCount.h alias of RefCount
     else ::operator delete(p);
   }
 };
-struct Leaf : public Node
+struct Tag  // an unrelated polymorphic first base: pushes the Node subobject of a multi-layout Leaf away from offset 0
 {
-  long long more[3];
-  Ref<Node> next;  // the member handle of the specification (m[x])
-  Leaf(int o_, int inc_) : Node(o_, inc_) { more[0] = more[1] = more[2] = 7; }
-  virtual ~Leaf() { g_dtors.push_back(DtorEvent{o, inc, 'D'}); more[0] = 0; }
+  long long pad;
+  Tag() : pad(0x7a67) {}
+  virtual ~Tag() { pad = 0; }
 };
+template <int LAYOUT>
+struct LeafT;
+#define LEAF_BODY(L)                                                                   \
+  long long more[3];                                                                   \
+  Ref<NodeT<L>> next; /* the member handle of the specification (m[x]) */              \
+  LeafT(int o_, int inc_) : NodeT<L>(o_, inc_) { more[0] = more[1] = more[2] = 7; }    \
+  virtual ~LeafT() { g_dtors.push_back(DtorEvent{this->o, this->inc, 'D'}); more[0] = 0; }
+template <>
+struct LeafT<0> : public NodeT<0> { LEAF_BODY(0) };
+template <>
+struct LeafT<1> : public Tag, public NodeT<1> { LEAF_BODY(1) };
+template <>
+struct LeafT<2> : public virtual NodeT<2> { LEAF_BODY(2) };
 
-typedef IntrusivePtr<Node> HB;  // handle of static type Base
-typedef Ref<Leaf> HD;           // handle of static type Derived (through the RefCount.h alias)
-
-struct Obj
+struct IWorld
 {
-  char type;       // 'B' / 'D'
-  Node *cur;       // current incarnation (may be destroyed)
-  int inc;
-  bool creatorHeld;
-  int explicitHeld;
-  std::vector<const void *> deadAddrs;
-  Obj() : type('B'), cur(nullptr), inc(0), creatorHeld(false), explicitHeld(0) {}
+  virtual ~IWorld() {}
+  virtual Json step(const Json &act) = 0;
 };
 
 struct Slot
 {
-  char type;
+  char type;  // 'C' IntrusivePtr<const Node>, 'B' IntrusivePtr<Node>, 'D' Ref<Leaf>
   bool constructed;
-  alignas(16) unsigned char mem[sizeof(HB) > sizeof(HD) ? sizeof(HB) : sizeof(HD)];
+  alignas(16) unsigned char mem[sizeof(IntrusivePtr<NodeT<0>>)];
   Slot() : type('B'), constructed(false) {}
 };
 
-struct World
+template <int LAYOUT>
+struct WorldT : IWorld
 {
+  typedef NodeT<LAYOUT> Node;
+  typedef LeafT<LAYOUT> Leaf;
+  typedef IntrusivePtr<const Node> HC;  // handle of static type "CBase"
+  typedef IntrusivePtr<Node> HB;        // handle of static type "Base"
+  typedef Ref<Leaf> HD;                 // handle of static type "Derived" (through the RefCount.h alias)
+
+  struct Obj
+  {
+    char type;   // 'B' / 'D'
+    Node *cur;   // Base subobject of the current incarnation (may be destroyed): the object's identity
+    Leaf *leaf;  // the same object as a Leaf, for 'D' objects (kept: a virtual base cannot be cast down statically)
+    int inc;
+    bool creatorHeld;
+    int explicitHeld;
+    std::vector<const void *> deadAddrs;
+    Obj() : type('B'), cur(nullptr), leaf(nullptr), inc(0), creatorHeld(false), explicitHeld(0) {}
+  };
+
   std::vector<Slot> slots;  // 1-based
   std::vector<Obj> objs;    // 1-based
   int maxExplicit;
   bool members;
 
-  World(const Json &hist)
+  WorldT(const Json &hist)
   {
+    static_assert(sizeof(HC) == sizeof(Slot().mem) && sizeof(HB) == sizeof(HC) && sizeof(HD) == sizeof(HC), "handle size");
     g_dtors.clear();
     g_quarantine = hist.has("quarantine") && hist["quarantine"].boolean();
     members = hist.has("members") && hist["members"].boolean();
@@ -105,14 +139,26 @@ struct World
     objs.resize(ot.size() + 1);
     for (size_t i = 0; i < st.size(); ++i) slots[i + 1].type = st[i];
     for (size_t i = 0; i < ot.size(); ++i) objs[i + 1].type = ot[i];
+    if (LAYOUT != 0) {  // the whole point of this family: Leaf* -> Node* must change the address
+      Leaf *probe = new Leaf(0, 0);
+      const bool adjusted = static_cast<const void *>(probe) != static_cast<const void *>(static_cast<Node *>(probe));
+      probe->refDec();
+      g_dtors.clear();
+      if (!adjusted) {
+        fprintf(stderr, "refcount driver: layout %d does not adjust the pointer in Leaf* -> Node*\n", LAYOUT);
+        _exit(3);
+      }
+    }
   }
   // handles and objects still alive at the end of a history are deliberately leaked:
   // nothing of the code under test runs outside a step.
 
+  HC &C(int s) { return *reinterpret_cast<HC *>(slots[s].mem); }
   HB &B(int s) { return *reinterpret_cast<HB *>(slots[s].mem); }
   HD &D(int s) { return *reinterpret_cast<HD *>(slots[s].mem); }
   bool okSlot(long long s) const { return s >= 1 && s < (long long)slots.size(); }
   bool okObj(long long o) const { return o >= 1 && o < (long long)objs.size(); }
+  static int rank(char t) { return t == 'D' ? 0 : t == 'B' ? 1 : 2; }
 
   bool dtorRan(int o) const
   {
@@ -122,10 +168,14 @@ struct World
   }
   bool alive(int o) const { return objs[o].cur != nullptr && !dtorRan(o); }
 
+  // the object a handle designates, as the address of its Base subobject
   const void *rawOf(int s)
   {
-    if (slots[s].type == 'B') return static_cast<const void *>(B(s).ptr);
-    return static_cast<const void *>(static_cast<Node *>(D(s).ptr));
+    const Node *p;
+    if (slots[s].type == 'C') p = C(s).ptr;
+    else if (slots[s].type == 'B') p = B(s).ptr;
+    else p = D(s).ptr;  // Leaf* -> const Node*: adjusted by the compiler (null stays null)
+    return static_cast<const void *>(p);
   }
   long long identify(const void *p) const
   {
@@ -139,6 +189,7 @@ struct World
     }
     return 99;
   }
+  long long identifyNode(const Node *p) const { return identify(static_cast<const void *>(p)); }
 
   static Json skipped()
   {
@@ -147,7 +198,6 @@ struct World
     return o;
   }
 
-  Leaf *leafOf(int o) { return static_cast<Leaf *>(objs[o].cur); }
   bool hasMember(int o) const { return members && objs[o].type == 'D'; }
   // somebody outside the object graph holds a reference to o (driver's own books + what the pool handles hold)
   bool externallyHeld(int o)
@@ -165,18 +215,89 @@ struct World
     if (o < 1 || o >= (long long)objs.size() || !hasMember((int)o)) return 0;
     return (int)o;
   }
-  // obj(t).next, reached the way user code reaches it: through the handle
-  Ref<Node> &memberThrough(int t)
+  // obj(t).next, reached the way user code reaches it: through the handle (a const handle: through the registry)
+  Ref<Node> &memberThrough(int t, int owner)
   {
-    if (slots[t].type == 'B') return static_cast<Leaf &>(*B(t)).next;
-    return D(t)->next;
+    if (slots[t].type == 'B') return dynamic_cast<Leaf &>(*B(t)).next;
+    if (slots[t].type == 'D') return D(t)->next;
+    return objs[owner].leaf->next;
   }
 
-  // static types allow handle t as a source for handle s
-  bool converts(int s, int t) const { return slots[s].type == 'B' || slots[t].type == 'D'; }
-  bool fits(int s, int o) const { return o == 0 || slots[s].type == 'B' || objs[o].type == 'D'; }
+  // static types allow handle t as a source for handle s / allow slot s to hold object o
+  bool converts(int s, int t) const { return rank(slots[s].type) >= rank(slots[t].type); }
+  bool fits(int s, int o) const { return o == 0 || slots[s].type != 'D' || objs[o].type == 'D'; }
 
-  Json step(const Json &act)
+  // ---- operations generic in the handle types --------------------------------------------
+  template <class HDst, class HSrc>
+  void construct(int s, HSrc &src, bool mv)
+  {
+    if (mv) new (slots[s].mem) HDst(std::move(src));
+    else new (slots[s].mem) HDst(src);
+  }
+  template <class HDst, class HSrc>
+  static void assign(HDst &dst, HSrc &src, bool mv)  // src may alias dst: self-assignment
+  {
+    if (mv) dst = std::move(src);
+    else dst = src;
+  }
+  // kind 0: constructor into slot s, 1: assignment to slot s; source slot t
+  void binary(int kind, int s, int t, bool mv)
+  {
+    const char ts = slots[s].type, tt = slots[t].type;
+    if (ts == 'C' && tt == 'C') { if (kind == 0) construct<HC>(s, C(t), mv); else assign(C(s), C(t), mv); }
+    else if (ts == 'B' && tt == 'B') { if (kind == 0) construct<HB>(s, B(t), mv); else assign(B(s), B(t), mv); }
+    else if (ts == 'D' && tt == 'D') { if (kind == 0) construct<HD>(s, D(t), mv); else assign(D(s), D(t), mv); }
+    else if (ts == 'B' && tt == 'D') { if (kind == 0) construct<HB>(s, D(t), mv); else assign(B(s), D(t), mv); }  // Derived -> Base
+    else if (ts == 'C' && tt == 'B') { if (kind == 0) construct<HC>(s, B(t), mv); else assign(C(s), B(t), mv); }  // Base -> const Base
+    else if (ts == 'C' && tt == 'D') { if (kind == 0) construct<HC>(s, D(t), mv); else assign(C(s), D(t), mv); }  // Derived -> const Base
+  }
+  template <class HX, class HY>
+  Json compare(const HX &x, const HY &y)
+  {
+    const bool eq = x == y, ne = x != y, lt = x < y, gt = y < x;
+    // the same two objects through handles of ONE static type (const Base, which every handle converts to)
+    bool blt, bgt;
+    {
+      const HC cx(x), cy(y);
+      blt = cx < cy;
+      bgt = cy < cx;
+    }
+    Json r = Json::object();
+    r.set("eq", eq);
+    r.set("ne", ne);
+    r.set("unordered", !lt && !gt);
+    r.set("order", (lt == blt && gt == bgt) ? "as-base" : "differs-from-base");
+    return r;
+  }
+  template <class HX>
+  Json compareWith(const HX &x, int t)
+  {
+    if (slots[t].type == 'C') return compare(x, const_cast<const HC &>(C(t)));
+    if (slots[t].type == 'B') return compare(x, const_cast<const HB &>(B(t)));
+    return compare(x, const_cast<const HD &>(D(t)));
+  }
+  template <class H>
+  static Json boolOf(const H &c)
+  {
+    const bool v1 = static_cast<bool>(c);
+    const bool v2 = c ? true : false;
+    return v1 == v2 ? Json(v1) : Json("operator bool inconsistent");
+  }
+  template <class H>
+  Json arrowOf(const H &c)
+  {
+    const Node *p1 = c.operator->();
+    const Node *p2 = &*c;
+    return p1 == p2 ? Json(identifyNode(p1)) : Json("operator-> and operator* disagree");
+  }
+  template <class H>
+  static int sameOf(const H &x, const H &y)
+  {
+    const bool eq = x == y, ne = x != y;
+    return eq == ne ? 2 : (eq ? 1 : 0);  // 2: == and != agree with each other, i.e. contradict
+  }
+
+  Json step(const Json &act) override
   {
     const std::string &a = act["a"].str();
     const Json &arg = act["arg"];
@@ -191,7 +312,13 @@ struct World
       Obj &O = objs[ob];
       if (O.cur) O.deadAddrs.push_back(O.cur);
       O.inc++;
-      O.cur = O.type == 'D' ? new Leaf((int)ob, O.inc) : new Node((int)ob, O.inc);
+      if (O.type == 'D') {
+        O.leaf = new Leaf((int)ob, O.inc);
+        O.cur = O.leaf;  // Leaf* -> Node*
+      } else {
+        O.leaf = nullptr;
+        O.cur = new Node((int)ob, O.inc);
+      }
       O.creatorHeld = true;
       O.explicitHeld = 0;
     } else if (a == "CreatorDrop") {
@@ -209,7 +336,8 @@ struct World
       c->refDec();
     } else if (a == "DefaultCtor") {
       if (!okSlot(s) || slots[s].constructed) return skipped();
-      if (slots[s].type == 'B') new (slots[s].mem) HB();
+      if (slots[s].type == 'C') new (slots[s].mem) HC();
+      else if (slots[s].type == 'B') new (slots[s].mem) HB();
       else new (slots[s].mem) HD();
       slots[s].constructed = true;
     } else if (a == "RawCtor" || a == "RawAssign") {
@@ -218,18 +346,28 @@ struct World
       if (ob != 0 && (!okObj(ob) || !alive((int)ob))) return skipped();
       if (!fits((int)s, (int)ob)) return skipped();
       Node *np = ob ? objs[ob].cur : nullptr;
-      if (slots[s].type == 'B') {
+      Leaf *lp = ob ? objs[ob].leaf : nullptr;  // non-null for Derived objects
+      if (slots[s].type == 'C') {
+        if (ctor) {
+          if (!np) new (slots[s].mem) HC(nullptr);
+          else if (lp) new (slots[s].mem) HC(lp);  // Leaf* -> const Node*
+          else new (slots[s].mem) HC(static_cast<const Node *>(np));
+        } else {
+          if (!np) C((int)s) = nullptr;
+          else if (lp) C((int)s) = lp;
+          else C((int)s) = static_cast<const Node *>(np);
+        }
+      } else if (slots[s].type == 'B') {
         if (ctor) {
           if (!np) new (slots[s].mem) HB(nullptr);
-          else if (objs[ob].type == 'D') new (slots[s].mem) HB(static_cast<Leaf *>(np));  // Leaf* -> Node*
+          else if (lp) new (slots[s].mem) HB(lp);  // Leaf* -> Node*: the conversion adjusts the pointer in the multi / virtual layouts
           else new (slots[s].mem) HB(np);
         } else {
           if (!np) B((int)s) = nullptr;
-          else if (objs[ob].type == 'D') B((int)s) = static_cast<Leaf *>(np);
+          else if (lp) B((int)s) = lp;
           else B((int)s) = np;
         }
       } else {
-        Leaf *lp = np ? static_cast<Leaf *>(np) : nullptr;
         if (ctor) new (slots[s].mem) HD(lp);
         else D((int)s) = lp;
       }
@@ -238,110 +376,55 @@ struct World
       const bool mv = a == "MoveCtor" || a == "ConvMoveCtor";
       if (!okSlot(s) || !okSlot(t) || s == t || slots[s].constructed || !slots[t].constructed || !converts((int)s, (int)t))
         return skipped();
-      const char ts = slots[s].type, tt = slots[t].type;
-      if (ts == 'B' && tt == 'B') {
-        if (mv) new (slots[s].mem) HB(std::move(B((int)t)));
-        else new (slots[s].mem) HB(B((int)t));
-      } else if (ts == 'D' && tt == 'D') {
-        if (mv) new (slots[s].mem) HD(std::move(D((int)t)));
-        else new (slots[s].mem) HD(D((int)t));
-      } else {  // derived-to-base conversion
-        if (mv) new (slots[s].mem) HB(std::move(D((int)t)));
-        else new (slots[s].mem) HB(D((int)t));
-      }
+      binary(0, (int)s, (int)t, mv);
       slots[s].constructed = true;
     } else if (a == "CopyAssign" || a == "ConvCopyAssign" || a == "MoveAssign" || a == "ConvMoveAssign") {
       const bool mv = a == "MoveAssign" || a == "ConvMoveAssign";
       if (!okSlot(s) || !okSlot(t) || !slots[s].constructed || !slots[t].constructed || !converts((int)s, (int)t))
         return skipped();
-      const char ts = slots[s].type, tt = slots[t].type;
-      if (ts == 'B' && tt == 'B') {
-        HB &dst = B((int)s);
-        HB &src = B((int)t);  // may alias dst: self-assignment
-        if (mv) dst = std::move(src);
-        else dst = src;
-      } else if (ts == 'D' && tt == 'D') {
-        HD &dst = D((int)s);
-        HD &src = D((int)t);
-        if (mv) dst = std::move(src);
-        else dst = src;
-      } else {
-        if (mv) B((int)s) = std::move(D((int)t));
-        else B((int)s) = D((int)t);
-      }
+      binary(1, (int)s, (int)t, mv);
     } else if (a == "Dtor") {
       if (!okSlot(s) || !slots[s].constructed) return skipped();
-      if (slots[s].type == 'B') B((int)s).~HB();
+      if (slots[s].type == 'C') C((int)s).~HC();
+      else if (slots[s].type == 'B') B((int)s).~HB();
       else D((int)s).~HD();
       slots[s].constructed = false;
     } else if (a == "SetMember") {
-      if (!okObj(ob) || !alive((int)ob) || !hasMember((int)ob) || !externallyHeld((int)ob) || !okSlot(t) || !slots[t].constructed)
+      if (!okObj(ob) || !alive((int)ob) || !hasMember((int)ob) || !externallyHeld((int)ob) || !okSlot(t) || !slots[t].constructed ||
+          slots[t].type == 'C')
         return skipped();
-      if (slots[t].type == 'B') leafOf((int)ob)->next = B((int)t);
-      else leafOf((int)ob)->next = D((int)t);  // derived-to-base conversion
+      if (slots[t].type == 'B') objs[ob].leaf->next = B((int)t);
+      else objs[ob].leaf->next = D((int)t);  // derived-to-base conversion
     } else if (a == "ClearMember") {
       if (!okObj(ob) || !alive((int)ob) || !hasMember((int)ob) || !externallyHeld((int)ob)) return skipped();
-      leafOf((int)ob)->next = nullptr;
+      objs[ob].leaf->next = nullptr;
     } else if (a == "CopyCtorFromMember") {
       if (!okSlot(s) || !okSlot(t) || s == t || slots[s].constructed || slots[s].type != 'B' || !memberOwner((int)t)) return skipped();
-      new (slots[s].mem) HB(memberThrough((int)t));
+      new (slots[s].mem) HB(memberThrough((int)t, memberOwner((int)t)));
       slots[s].constructed = true;
     } else if (a == "CopyAssignFromMember" || a == "MoveAssignFromMember") {
       if (!okSlot(s) || !okSlot(t) || !slots[s].constructed || slots[s].type != 'B' || !memberOwner((int)t)) return skipped();
       HB &dst = B((int)s);
-      Ref<Node> &src = memberThrough((int)t);  // with s == t: cur = cur->next, the source lives inside the object dst designates
+      Ref<Node> &src = memberThrough((int)t, memberOwner((int)t));  // with s == t: cur = cur->next, the source lives inside the object dst designates
       if (a == "CopyAssignFromMember") dst = src;
       else dst = std::move(src);
     } else if (a == "Bool") {
       if (!okSlot(s) || !slots[s].constructed) return skipped();
-      bool v1, v2;
-      if (slots[s].type == 'B') {
-        const HB &c = B((int)s);
-        v1 = static_cast<bool>(c);
-        v2 = c ? true : false;
-      } else {
-        const HD &c = D((int)s);
-        v1 = static_cast<bool>(c);
-        v2 = c ? true : false;
-      }
-      ret = v1 == v2 ? Json(v1) : Json("operator bool inconsistent");
+      if (slots[s].type == 'C') ret = boolOf(const_cast<const HC &>(C((int)s)));
+      else if (slots[s].type == 'B') ret = boolOf(const_cast<const HB &>(B((int)s)));
+      else ret = boolOf(const_cast<const HD &>(D((int)s)));
     } else if (a == "Arrow") {
       if (!okSlot(s) || !slots[s].constructed || rawOf((int)s) == nullptr) return skipped();
-      const void *p1, *p2;
-      if (slots[s].type == 'B') {
-        const HB &c = B((int)s);
-        p1 = static_cast<const void *>(c.operator->());
-        p2 = static_cast<const void *>(&*c);
-      } else {
-        const HD &c = D((int)s);
-        p1 = static_cast<const void *>(static_cast<Node *>(c.operator->()));
-        p2 = static_cast<const void *>(static_cast<Node *>(&*c));
-      }
-      ret = p1 == p2 ? Json(identify(p1)) : Json("operator-> and operator* disagree");
+      if (slots[s].type == 'C') ret = arrowOf(const_cast<const HC &>(C((int)s)));
+      else if (slots[s].type == 'B') ret = arrowOf(const_cast<const HB &>(B((int)s)));
+      else ret = arrowOf(const_cast<const HD &>(D((int)s)));
     } else if (a == "Compare") {
       if (!okSlot(s) || !okSlot(t) || !slots[s].constructed || !slots[t].constructed) return skipped();
       if (rawOf((int)s) == nullptr && rawOf((int)t) == nullptr) return skipped();
-      bool eq, ne, lt, gt;
-      const char ts = slots[s].type, tt = slots[t].type;
-      if (ts == 'B' && tt == 'B') {
-        const HB &x = B((int)s), &y = B((int)t);
-        eq = x == y; ne = x != y; lt = x < y; gt = y < x;
-      } else if (ts == 'D' && tt == 'D') {
-        const HD &x = D((int)s), &y = D((int)t);
-        eq = x == y; ne = x != y; lt = x < y; gt = y < x;
-      } else if (ts == 'B') {  // handles of different static type: whatever the expression compiles to
-        const HB &x = B((int)s);
-        const HD &y = D((int)t);
-        eq = x == y; ne = x != y; lt = x < y; gt = y < x;
-      } else {
-        const HD &x = D((int)s);
-        const HB &y = B((int)t);
-        eq = x == y; ne = x != y; lt = x < y; gt = y < x;
-      }
-      ret = Json::object();
-      ret.set("eq", eq);
-      ret.set("ne", ne);
-      ret.set("unordered", !lt && !gt);
+      // handles of the same or of different static types: whatever the expression compiles to
+      if (slots[s].type == 'C') ret = compareWith(const_cast<const HC &>(C((int)s)), (int)t);
+      else if (slots[s].type == 'B') ret = compareWith(const_cast<const HB &>(B((int)s)), (int)t);
+      else ret = compareWith(const_cast<const HD &>(D((int)s)), (int)t);
     } else {
       ret = Json("unknown action " + a);
     }
@@ -373,7 +456,7 @@ struct World
     o.set("cnt", cnt);
     Json mem = Json::array();
     for (size_t ob2 = 1; ob2 < objs.size(); ++ob2) {
-      if (alive((int)ob2) && hasMember((int)ob2)) mem.push(identify(static_cast<const void *>(leafOf((int)ob2)->next.ptr)));
+      if (alive((int)ob2) && hasMember((int)ob2)) mem.push(identifyNode(objs[ob2].leaf->next.ptr));
       else mem.push(-1);
     }
     o.set("mem", mem);
@@ -388,14 +471,27 @@ struct World
           same.push(-1);
           continue;
         }
-        bool eq, ne;
-        if (slots[i].type == 'B') { eq = B((int)i) == B((int)j); ne = B((int)i) != B((int)j); }
-        else { eq = D((int)i) == D((int)j); ne = D((int)i) != D((int)j); }
-        same.push(eq == ne ? 2 : (eq ? 1 : 0));  // 2: == and != agree with each other, i.e. contradict
+        if (slots[i].type == 'C') same.push(sameOf(C((int)i), C((int)j)));
+        else if (slots[i].type == 'B') same.push(sameOf(B((int)i), B((int)j)));
+        else same.push(sameOf(D((int)i), D((int)j)));
       }
     o.set("same", same);
     return o;
   }
+};
+
+struct World
+{
+  IWorld *w;
+  World(const Json &hist)
+  {
+    const std::string l = hist.has("layout") ? hist["layout"].str() : "single";
+    if (l == "multi") w = new WorldT<1>(hist);
+    else if (l == "virtual") w = new WorldT<2>(hist);
+    else w = new WorldT<0>(hist);
+  }
+  ~World() { delete w; }
+  Json step(const Json &act) { return w->step(act); }
 };
 
 int main(int argc, char **argv)
